@@ -72,6 +72,15 @@ PREF = {
        "must still be realistic and keep all 81 tests passing."),
 }
 PREF['n'] = PREF['h']
+PREF['o'] = ("PREFERRED this time, one of: (a) AGGREGATION of partial results - two dictionaries / Counters / tables / lists of per-job, per-file, "
+             "per-read or per-mate results merged into one (update versus add, concat + fillna, a key present on one side only, a default "
+             "value shared by reference, an accumulator that is not reset or is reset too early); (b) the BORDER BETWEEN PYTHON AND A LIBRARY - "
+             "pysam objects that are views or copies (AlignedSegment re-used by an iterator, tags set with another value type, header objects, "
+             "query_sequence assignment resetting qualities, get_aligned_pairs variants, reference_end of unusual records), numpy / pandas "
+             "semantics (integer overflow of small dtypes, NaN versus 0, chained assignment on a copy, index alignment), gzip / io text versus "
+             "bytes; (c) a REFACTORING SLIP - a loop variable re-used after the loop, a comprehension or generator consumed twice, a mutable "
+             "default argument, `is` versus `==`, `or` versus `is None`, an `else` attached to the wrong `if`/`for`, an early `return` or "
+             "`continue` that skips a later statement. It must still be realistic and keep all 81 tests passing.")
 props = [json.loads(l) for l in open(os.path.join(V, 'properties.jsonl'))]
 tmpl = open('/tmp/agent_prompt_template.txt').read() if os.path.exists('/tmp/agent_prompt_template.txt') else None
 for p in props:
